@@ -5,6 +5,7 @@ import (
 	"fmt"
 	"go/ast"
 	"go/format"
+	"go/token"
 	"go/types"
 	"os"
 	"path/filepath"
@@ -83,6 +84,14 @@ func nativeRedirects(dir string, overlay map[string][]byte, redirects map[string
 								f := st.Field(idx[k])
 								recv = &ast.SelectorExpr{X: recv, Sel: ast.NewIdent(f.Name())}
 								rt = f.Type()
+							}
+							// pointer-receiver method called on an addressable value: pass its address
+							if sig, ok := fn.Type().(*types.Signature); ok && sig.Recv() != nil {
+								_, wantPtr := sig.Recv().Type().(*types.Pointer)
+								_, havePtr := rt.Underlying().(*types.Pointer)
+								if wantPtr && !havePtr {
+									recv = &ast.UnaryExpr{Op: token.AND, X: recv}
+								}
 							}
 							fun.X = recv
 							call.Args = append([]ast.Expr{fun.X}, call.Args...)
